@@ -100,6 +100,9 @@ class Mon:
         self.ns_over: dict[str, Any] | None = None  # assign accepted although own size > limit
         self.ns_early: dict[str, Any] | None = None  # error raised although own size <= limit
         self.ns_raised = 0
+        self.measure: Any = shallow_size  # the size of one local value, as configured for this render
+        self.unrestored: dict[str, Any] | None = None  # loop stack / carry changed by a node that returned
+        self.assigns_in_copies = 0  # assignments made in a copied context (render, call, block)
         self.rebinds = 0  # assignments to a name that was already bound in that context
         self.rebinds_nil = 0  # ... from or to nil
         self.assign_depths: set[int] = set()  # copy depths of the contexts that were assigned to
@@ -201,6 +204,16 @@ class Mon:
             self.body_exec(st[-1], buf, None)
 
     # ---------------------------------------------------------------- post-hoc loop facts
+    def on_unrestored(self, node: Any, depth: int, carry: int, context: Any) -> None:
+        """A node returned normally and left the context's loop accounting changed."""
+        kind = KINDS.get(type(node)) or type(node).__name__
+        self.unrestored = {
+            "node": kind,
+            "what": "loop-stack" if len(context.loops) != depth else "loop-carry",
+            "loops_before": depth, "loops_after": len(context.loops),
+            "carry_before": carry, "carry_after": context.loop_iteration_carry,
+        }
+
     def on_loop_check(self, length: int) -> None:
         self.loop_checks += 1
         st = self.stack
@@ -296,7 +309,10 @@ class Mon:
     # ---------------------------------------------------------------- namespace
     def on_assign(self, ctx: Any, raised: bool) -> None:
         self.assigns += 1
-        self.assign_depths.add(_ctx_depth(ctx))
+        d = _ctx_depth(ctx)
+        self.assign_depths.add(d)
+        if d:
+            self.assigns_in_copies += 1
         sz = own_size(ctx)
         L = self.limits.get("ns")
         if raised:
@@ -352,13 +368,48 @@ def _engine_frames() -> int:
     return n
 
 
-def own_size(ctx: Any) -> int:
-    """The documented measure (sys.getsizeof of every local value), summed over the
-    chain of render contexts that are alive (``parent`` links), computed here."""
+def shallow_size(v: Any) -> int:
+    """The documented default measure of one local value."""
+    return sys.getsizeof(v, 1)
+
+
+def text_size(v: Any) -> int:
+    """Bytes of text a value holds, strings inside arrays and hashes included."""
+    if isinstance(v, str):
+        return len(v.encode("utf-8", "surrogatepass"))
+    if isinstance(v, (list, tuple)):
+        return sum(text_size(x) for x in v)
+    if isinstance(v, dict):
+        return sum(text_size(x) for x in v.values())
+    return 1
+
+
+def item_count(v: Any) -> int:
+    """Number of scalar items a value holds."""
+    if isinstance(v, (list, tuple, range)):
+        return sum(item_count(x) for x in v) if not isinstance(v, range) else len(v)
+    if isinstance(v, dict):
+        return sum(item_count(x) for x in v.values())
+    return 1
+
+
+def per_name(v: Any) -> int:  # noqa: ARG001
+    return 7
+
+
+MEASURES = {"shallow": shallow_size, "text": text_size, "items": item_count, "names": per_name}
+
+
+def own_size(ctx: Any, fn: Any = None) -> int:
+    """The configured measure (default: sys.getsizeof of every local value), summed over
+    the chain of render contexts that are alive (``parent`` links), computed here."""
+    if fn is None:
+        fn = MON.measure if MON is not None else shallow_size
     total = 0
     seen = 0
     while ctx is not None and seen < 10_000:
-        total += sum(sys.getsizeof(v, 1) for v in ctx.locals.values())
+        for v in ctx.locals.values():
+            total += fn(v)
         ctx = ctx.parent
         seen += 1
     return total
@@ -433,8 +484,12 @@ def install() -> None:
         prev = m.cur_real
         if buffer is not prev and type(buffer) is not NullIO:
             m.cur_real = buffer
+        depth, carry = len(context.loops), context.loop_iteration_carry
         try:
-            return o_render(self, context, buffer)
+            n = o_render(self, context, buffer)
+            if (len(context.loops) != depth or context.loop_iteration_carry != carry) and m.unrestored is None:
+                m.on_unrestored(self, depth, carry, context)
+            return n
         finally:
             m.cur_real = prev
             if f is not None:
@@ -448,8 +503,12 @@ def install() -> None:
         prev = m.cur_real
         if buffer is not prev and type(buffer) is not NullIO:
             m.cur_real = buffer
+        depth, carry = len(context.loops), context.loop_iteration_carry
         try:
-            return await o_render_async(self, context, buffer)
+            n = await o_render_async(self, context, buffer)
+            if (len(context.loops) != depth or context.loop_iteration_carry != carry) and m.unrestored is None:
+                m.on_unrestored(self, depth, carry, context)
+            return n
         finally:
             m.cur_real = prev
             if f is not None:
